@@ -199,4 +199,28 @@ def check(case):
         if err > tol * len(srcs):
             fails.append(('superposition:one-object-port-by-port', 'sum of the responses to each source alone, solved one '
                           'after the other on one object, differs by %.3g of the largest current (tol %.1g)' % (err, tol)))
+    # (v) homogeneity on ONE object: solve and look at the pattern for V, replace the sources by c V, solve again:
+    # currents c I, the same pattern, total power |c|^2 P
+    if common.net_power_ok(m):
+        try:
+            mo = build.model(case)
+            mo.compute()
+            ga = pattern(mo)
+            pa = mo.power
+            mo.sources = []
+            for k in range(len(srcs)):
+                mo.register_source(build.mm.Excitation(V[k] * fac), srcs[k]['_idx'])
+            mo.compute()
+            gb = pattern(mo)
+            errc = np.abs(np.array(mo.current) - fac * I).max() / (abs(fac) * imax)
+            msk_ = ga > ga.max() - 60
+            dg = np.abs(ga - gb)[msk_].max()
+            if errc > tol:
+                fails.append(('homogeneity:one-object:currents', 'after replacing V by c V on the same object the currents differ from c I by %.3g' % errc))
+            if dg > 1e-6 + 10 * tol + common.gain_tol_db((m,), tol, base_db=0.0):
+                fails.append(('homogeneity:one-object:pattern', 'after replacing V by c V on the same object the dBi pattern changes by %.3g dB' % dg))
+            if abs(mo.power - abs(fac) ** 2 * pa) > (1e-9 + tol) * abs(fac) ** 2 * sum(abs(v * I[s['_idx']]) for v, s in zip(V, srcs)):
+                fails.append(('homogeneity:one-object:power', 'total power %r after the voltages were multiplied by c, |c|^2 P = %r' % (mo.power, abs(fac) ** 2 * pa)))
+        except build.Rejected:
+            pass
     return Result(fails=fails, nontrivial=nt, labels=labels)
